@@ -159,6 +159,9 @@ pub enum NativeVal {
     Tuple(i64, String, bool),
     Map(std::collections::BTreeMap<String, i64>),
     Rec(Rec),
+    /// a value whose `Serialize` implementation reports an error (as a map with non-string keys or an
+    /// integer beyond u64 does in serde_json): only ever used in parser registrations
+    Unserialisable,
 }
 
 /// A derived-Serialize struct with nested members, for C14's "serialisable structs".
@@ -188,12 +191,16 @@ impl NativeVal {
             NativeVal::Tuple(a, b, c) => serde_json::to_value((a, b, c)),
             NativeVal::Map(x) => serde_json::to_value(x),
             NativeVal::Rec(x) => serde_json::to_value(x),
+            NativeVal::Unserialisable => Ok(Value::Null),
         }
         .expect("harness: native value to json")
     }
 }
 
 impl ClaimSpec {
+    pub fn is_unserialisable(&self) -> bool {
+        matches!(self, ClaimSpec::Native { val: NativeVal::Unserialisable, .. })
+    }
     pub fn key(&self) -> &str {
         match self {
             ClaimSpec::Iss(_) => "iss",
@@ -344,6 +351,8 @@ pub enum FaultKind {
     /// one half of the signature (0 = r / R, 1 = s / S) overwritten: pattern 0 = zeros, 1 = 0xff…, 2 = the
     /// group order (P-384 n big-endian, Ed25519 L little-endian; random for RSA), 3 = order - 1
     SigFill { half: u8, pattern: u8 },
+    /// the token's own header text inserted `n` more times right after the header
+    RepeatHeader { n: u8 },
     /// the footer segment replaced by base64url of raw bytes (not necessarily UTF-8)
     FooterReplaceRaw { hex: String },
     /// overwrite `len` decoded bytes at `at` with seeded random bytes
